@@ -48,7 +48,7 @@ Plain(names) == [n |-> Len(names), name |-> names, inst |-> [i \in 1..Len(names)
                  lab |-> [i \in 1..Len(names) |-> {}], edges |-> {}]
 WellFormed(x) == /\ DOMAIN x.name = 1..x.n /\ DOMAIN x.inst = 1..x.n /\ DOMAIN x.lab = 1..x.n
                  /\ \A e \in x.edges : e.a \in 1..x.n /\ e.b \in 1..x.n /\ e.a < e.b
-                 /\ \A e, f \in x.edges : (e.a = f.a /\ e.b = f.b) => e = f
+                 /\ Cardinality({<<e.a, e.b>> : e \in x.edges}) = Cardinality(x.edges)      \* one edge per pair of residues
 
 (* ------------------------------------------------------------------ *)
 (* P-layer: one-letter alphabets (transcribed from the documented      *)
